@@ -64,6 +64,10 @@ func c09Variants(k universe.Kind) []c09Variant {
 			{"list-iri", func(v int) any { return ap.ItemCollection{ap.IRI("https://example.com/same"), c09IRI(v, "m")} }},
 			{"list1-iri", func(v int) any { return ap.ItemCollection{c09IRI(v, "s")} }},
 			{"list-obj", func(v int) any { return ap.ItemCollection{&ap.Object{ID: c09IRI(v, "lo"), Type: ap.NoteType}} }},
+			{"list17-last", func(v int) any { return c09Long(17, 16, v) }},
+			{"list33-middle", func(v int) any { return c09Long(33, 20, v) }},
+			{"list65-last", func(v int) any { return c09Long(65, 64, v) }},
+			{"list-length", func(v int) any { return c09Long(16+v, -1, 0) }},
 		}
 	case universe.KNLV:
 		return []c09Variant{
@@ -72,6 +76,20 @@ func c09Variants(k universe.Kind) []c09Variant {
 			}},
 			{"lang2", func(v int) any {
 				return ap.NaturalLanguageValues{{Ref: "en", Value: ap.Content("same")}, {Ref: "fr", Value: ap.Content(fmt.Sprintf("texte %d", v))}}
+			}},
+			{"lang2-first", func(v int) any {
+				return ap.NaturalLanguageValues{{Ref: "en", Value: ap.Content(fmt.Sprintf("text %d", v))}, {Ref: "fr", Value: ap.Content("pareil")}}
+			}},
+			{"lang-tag-only", func(v int) any {
+				// same texts, an untagged entry present, only the tag of the second entry differs
+				return ap.NaturalLanguageValues{{Ref: "-", Value: ap.Content("Hello")}, {Ref: []ap.LangRef{"", "en", "fr"}[v], Value: ap.Content("Hello")}}
+			}},
+			{"lang-extra-entry", func(v int) any {
+				n := ap.NaturalLanguageValues{{Ref: "en", Value: ap.Content("same")}, {Ref: "fr", Value: ap.Content("pareil")}, {Ref: "de", Value: ap.Content("gleich")}}
+				return n[:v]
+			}},
+			{"lang-long-tail", func(v int) any {
+				return ap.NaturalLanguageValues{{Ref: "-", Value: ap.Content(strings.Repeat("a", 1023+v*0) + fmt.Sprint(v))}}
 			}},
 		}
 	case universe.KTime:
@@ -159,6 +177,34 @@ func c09Run(c *engine.Ctx) {
 		{"IRIs[2]", func() ap.Item { return ap.IRIs{"https://example.com/1", "https://example.com/2"} }},
 		{"IRIs[1]", func() ap.Item { return ap.IRIs{"https://example.com/1"} }},
 		{"*IRIs[1]", func() ap.Item { c := ap.IRIs{"https://example.com/1"}; return &c }},
+	}
+	for _, n := range []int{8, 15, 16, 17, 18, 31, 32, 33, 63, 64, 65, 130} {
+		n := n
+		bare = append(bare, struct {
+			name string
+			mk   func() ap.Item
+		}{fmt.Sprintf("ItemCollection[long %d]", n), func() ap.Item { return universe.LongList(&universe.Gen{}, n) }},
+			struct {
+				name string
+				mk   func() ap.Item
+			}{fmt.Sprintf("ItemCollection[%d objects without id]", n), func() ap.Item {
+				l := ap.ItemCollection{}
+				for i := 0; i < n; i++ {
+					l = append(l, &ap.Object{Type: ap.NoteType, Name: ap.NaturalLanguageValues{{Ref: "-", Value: ap.Content(fmt.Sprintf("anonymous %d", i))}}})
+				}
+				return l
+			}},
+			struct {
+				name string
+				mk   func() ap.Item
+			}{fmt.Sprintf("IRIs[long %d]", n), func() ap.Item {
+				l := ap.IRIs{}
+				g := &universe.Gen{}
+				for i := 0; i < n; i++ {
+					l = append(l, g.IRI())
+				}
+				return l
+			}})
 	}
 	for _, b := range bare {
 		b := b
@@ -367,4 +413,17 @@ func c09ReflFail(t *engine.T, class, how string, r universe.Recipe, cn *canon.No
 		return
 	}
 	t.Fail(fmt.Sprintf("%s|multi|%d-properties|%s", class, len(r.Sets), how), "ItemsEqual = false for %s", cn)
+}
+
+// c09Long is a list of n distinct IRIs; member `at` (if >= 0) depends on the variant v.
+func c09Long(n, at, v int) ap.ItemCollection {
+	l := make(ap.ItemCollection, 0, n)
+	for i := 0; i < n; i++ {
+		if i == at {
+			l = append(l, c09IRI(v, fmt.Sprintf("long/%d/", i)))
+		} else {
+			l = append(l, ap.IRI(fmt.Sprintf("https://example.com/long/%d", i)))
+		}
+	}
+	return l
 }
